@@ -43,11 +43,37 @@ def obs_program(params):
         state = {"fs": dict(fail_start), "fc": dict(fail_ctor)}
         marker_hits = []
 
+        # Watch spellings (C13: "distinct watches (path, recursive flag, filter)"): params["wspec"] maps a watch number of
+        # the program to {"path": n, "recursive": bool, "filter": [class names] | None, "spell": "str" | "path"}; numbers
+        # whose (path, recursive, filter-as-a-set) agree are ONE watch and are logged under the smallest of them.
+        import pathlib
+
+        wspec = {int(k): v for k, v in params.get("wspec", {}).items()}
+
+        def spec_of(w):
+            d = wspec.get(w, {})
+            flt = d.get("filter")
+            return (d.get("path", w), bool(d.get("recursive", False)), None if flt is None else frozenset(flt), d.get("spell", "str"),
+                    None if flt is None else list(flt))
+
+        def canon(w):
+            k = spec_of(w)[:3]
+            return min(x for x in set(wspec) | {w} if spec_of(x)[:3] == k)
+
+        def wargs(w):
+            pth, rec, _fs, spell, flt = spec_of(w)
+            path = f"/w{pth}"
+            return (pathlib.Path(path) if spell == "path" else path), rec, (None if flt is None else [getattr(events, n) for n in flt])
+
         def wid(watch):
-            return int(watch.path[2:])
+            flt = watch.event_filter
+            key = (int(watch.path[2:]), watch.is_recursive, None if flt is None else frozenset(c.__name__ for c in flt))
+            ks = [x for x in set(wspec) if spec_of(x)[:3] == key]
+            return min(ks) if ks else key[0]
 
         def mkwatch(w):
-            return api.ObservedWatch(f"/w{w}", recursive=False)
+            path, rec, flt = wargs(w)
+            return api.ObservedWatch(path, recursive=rec, event_filter=flt)
 
         class ScriptedEmitter(api.EventEmitter):
             def __init__(self, event_queue, watch, *, timeout=1.0, event_filter=None):
@@ -143,13 +169,14 @@ def obs_program(params):
         def do(op):
             k = op[0]
             if k == "schedule":
-                call("schedule", lambda: obs.schedule(H(op[1]), f"/w{op[2]}", recursive=False), h=op[1], w=op[2])
+                path, rec, flt = wargs(op[2])
+                call("schedule", lambda: obs.schedule(H(op[1]), path, recursive=rec, event_filter=flt), h=op[1], w=canon(op[2]))
             elif k == "unschedule":
-                call("unschedule", lambda: obs.unschedule(mkwatch(op[1])), w=op[1])
+                call("unschedule", lambda: obs.unschedule(mkwatch(op[1])), w=canon(op[1]))
             elif k == "add":
-                call("add", lambda: obs.add_handler_for_watch(H(op[1]), mkwatch(op[2])), h=op[1], w=op[2])
+                call("add", lambda: obs.add_handler_for_watch(H(op[1]), mkwatch(op[2])), h=op[1], w=canon(op[2]))
             elif k == "remove":
-                call("remove", lambda: obs.remove_handler_for_watch(H(op[1]), mkwatch(op[2])), h=op[1], w=op[2])
+                call("remove", lambda: obs.remove_handler_for_watch(H(op[1]), mkwatch(op[2])), h=op[1], w=canon(op[2]))
             elif k == "unschedule_all":
                 call("unschedule_all", obs.unschedule_all)
             elif k == "start":
@@ -170,7 +197,7 @@ def obs_program(params):
                 s.log("quiescent")
                 ems = sorted((wid(e.watch), bool(e.is_alive())) for e in list(obs.emitters))
                 routes = []
-                for w in watches_used:
+                for w in sorted({canon(x) for x in watches_used}):
                     del marker_hits[:]
                     q = api.EventQueue()
                     q.put((Marker("marker"), mkwatch(w)))
